@@ -22,6 +22,10 @@ def cfgs(tier):
     return c
 
 
+def tu_cfgs(tier):
+    return cfgs(tier) + ([(3, 2)] if tier == "quick" else [])
+
+
 def tu_text(cf):
     return '#include "vfit.hpp"\n' + "\n".join('extern "C" void fit_%d_%d(const double* i, double* o){ vfit::fit1d<%d,%d>(i,o);}' % (s, n, s, n) for s, n in cf) + "\n"
 
@@ -37,6 +41,60 @@ def deriv_at(c, K, d, end):
     return acc
 
 
+def deriv_row(K, d, end):
+    """coefficients (over the K+1 Bernstein coefficients) of the d-th derivative at u=0 / u=1"""
+    f = factorial(K) // factorial(K - d)
+    row = [Fraction(0)] * (K + 1)
+    for j in range(d + 1):
+        row[j if end == 0 else K - d + j] += (-1) ** (d - j) * comb(d, j) * f
+    return row
+
+
+def min_derivative_reference(K, D, inn, left, rght, dtv):
+    """Exact minimiser of  sum_i dt_i^(1-2D) int_0^1 (p_i^(D)(u))^2 du  subject to the specification's linear constraints, as a rational
+    matrix X with  coefficients = X dx  (written from the documentation of spline_specs::MinDerivative and fit_spline_1d, not from the
+    implementation: no regulariser, no sparse assembly)."""
+    import sympy as sp
+    u = sp.symbols("u")
+    N = len(dtv)
+    B = [sp.binomial(K, k) * u ** k * (1 - u) ** (K - k) for k in range(K + 1)]
+    dB = [sp.diff(b, u, D) for b in B]
+    P = sp.Matrix(K + 1, K + 1, lambda i, j: sp.integrate(sp.expand(dB[i] * dB[j]), (u, 0, 1)))
+    n = N * (K + 1)
+    rows, rhs = [], []
+
+    def row(entries):
+        r = [sp.Integer(0)] * n
+        for i, k, v in entries:
+            r[i * (K + 1) + k] += sp.Rational(v.numerator, v.denominator) if isinstance(v, Fraction) else sp.Rational(v)
+        return r
+    for i in range(N):
+        rows.append(row([(i, 0, 1)])); rhs.append([0] * N)
+        e = [0] * N; e[i] = 1
+        rows.append(row([(i, K, 1)])); rhs.append(e)
+    for i in range(N - 1):
+        for d in range(1, inn + 1):
+            a = deriv_row(K, d, 1)
+            b = deriv_row(K, d, 0)
+            rows.append(row([(i, k, a[k] * dtv[i + 1] ** d) for k in range(K + 1)] + [(i + 1, k, -b[k] * dtv[i] ** d) for k in range(K + 1)])); rhs.append([0] * N)
+    for d in left:
+        a = deriv_row(K, d, 0)
+        rows.append(row([(0, k, a[k]) for k in range(K + 1)])); rhs.append([0] * N)
+    for d in rght:
+        a = deriv_row(K, d, 1)
+        rows.append(row([(N - 1, k, a[k]) for k in range(K + 1)])); rhs.append([0] * N)
+    A = sp.Matrix(rows)
+    b = sp.Matrix(rhs)
+    Q = sp.zeros(n, n)
+    for i in range(N):
+        fac = sp.Rational(dtv[i].numerator, dtv[i].denominator) ** (1 - 2 * D)
+        Q[i * (K + 1):(i + 1) * (K + 1), i * (K + 1):(i + 1) * (K + 1)] = fac * P
+    m = A.shape[0]
+    KKT = sp.Matrix(sp.BlockMatrix([[Q, A.T], [A, sp.zeros(m, m)]]))
+    sol = KKT.LUsolve(sp.Matrix(sp.BlockMatrix([[sp.zeros(n, N)], [b]])))
+    return [[Fraction(int(sol[k, j].p), int(sol[k, j].q)) for j in range(N)] for k in range(n)]
+
+
 def tpow(x, k):
     r = T.Const(1)
     for _ in range(k):
@@ -44,21 +102,31 @@ def tpow(x, k):
     return r
 
 
-def job(cf, cfall, tier):
+DT_FIXED = {1: [(Fraction(1),), (Fraction(1, 2),), (Fraction(3),)], 2: [(Fraction(1), Fraction(1)), (Fraction(1, 2), Fraction(2)), (Fraction(3), Fraction(1, 3))]}
+
+
+def job(cf, cfall, tier, dtfix=None):
     spec, N = cf
     name, K, inn, left, rght = SPECS[spec]
     T.reset_terms()
     res = check.Result()
     h = check.Harness("fit_" + tier, tu_text(cfall))
     dt, dx = G.syms("dt", N), G.syms("dx", N)
+    in_names = [x.args[0] for x in dt + dx]
+    if dtfix is not None:
+        # MinDerivative: the KKT factorisation with symbolic dt swells beyond any budget (rational pivots of high degree);
+        # dt is fixed to stated rational values, dx stays symbolic
+        dt = [T.Const(v) for v in dtfix]
     ins = dt + dx
-    asm = [(Cond("cmp", x, T.Const(Fraction(1, 100)), "oge"), True) for x in dt] + [(Cond("cmp", x, T.Const(100), "ole"), True) for x in dt]
+    asm = [] if dtfix is not None else [(Cond("cmp", x, T.Const(Fraction(1, 100)), "oge"), True) for x in dt] + [(Cond("cmp", x, T.Const(100), "ole"), True) for x in dt]
     fn = "fit_%d_%d" % (spec, N)
-    key = "fit_spline_1d/%s/N%d" % (name, N)
+    key = "fit_spline_1d/%s/N%d" % (name, N) + ("/dt=%s" % ",".join(str(v) for v in dtfix) if dtfix is not None else "")
     nout = N * (K + 1)
 
     def sampler(k):
         r = random.Random(k)
+        if dtfix is not None:
+            return [float(v) for v in dtfix] + [r.uniform(-2, 2) for _ in range(N)]
         return [r.choice([0.05, 0.1, 0.5, 1.0, 3.0]) * r.uniform(0.8, 1.2) for _ in range(N)] + [r.uniform(-2, 2) for _ in range(N)]
 
     def obligations(ins_, o):
@@ -76,8 +144,10 @@ def job(cf, cfall, tier):
         for d in rght:
             obl.append(("right-boundary/derivative%d=0" % d, deriv_at(c[N - 1], K, d, 1), T.Const(0)))
         return obl
-    check.check_wrapper(res, h, fn, ins, nout, None, key, obligations=obligations, assumptions=asm, tol=1e-6, pid=PID, sampler=sampler, max_paths=600, nvalidate=8,
-                        timeout_ms=20000)
+    paths = check.check_wrapper(res, h, fn, ins, nout, None, key, obligations=obligations, assumptions=asm, tol=1e-6, pid=PID, sampler=sampler, max_paths=600,
+                                nvalidate=8, timeout_ms=20000, in_names=in_names)
+    if spec == 3 and dtfix is not None and N >= 2:
+        optimality(res, h, fn, key, paths, K, inn, left, rght, dtfix, dx, sampler)
     # memory errors on paths of a failed factorisation (singular pivot) are infeasible-but-unrefuted paths, not findings
     keep = []
     for v in res.violations:
@@ -90,13 +160,73 @@ def job(cf, cfall, tier):
     return res
 
 
+OPT_TOL = Fraction(1, 10**4)
+
+
+def optimality(res, h, fn, key, paths, K, inn, left, rght, dtv, dx, sampler):
+    """MinDerivative with free degrees of freedom (N >= 2): the returned coefficients are within 1e-4 |dx|_inf of the exact minimiser of the
+    documented cost (the implementation's 1e-6 Tikhonov term moves the minimiser by ~1e-6).  Both sides are linear in the symbolic dx; z3 decides
+    the bound over the box |dx_i| <= 1 (scale invariance covers the rest)."""
+    N = len(dtv)
+    X = min_derivative_reference(K, 3, inn, left, rght, list(dtv))
+    box = [(Cond("cmp", x, T.Const(-1), "oge"), True) for x in dx] + [(Cond("cmp", x, T.Const(1), "ole"), True) for x in dx]
+    for pi, p in enumerate(paths):
+        if p.status != "ok":
+            continue
+        bad = []
+        for k in range(N * (K + 1)):
+            ref = G.sum_terms([T.Mul(T.Const(X[k][j]), dx[j]) for j in range(N)])
+            r = T.Sub(p.outs[k], ref)
+            ok = (solver.entails(list(p.pc) + box, Cond("cmp", r, T.Const(OPT_TOL), "ole"), True)
+                  and solver.entails(list(p.pc) + box, Cond("cmp", r, T.Const(-OPT_TOL), "oge"), True))
+            name = "%s/path%d/minimiser/coef%d" % (key, pi, k)
+            if ok:
+                res.add_raw(name, "holds", "z3: |coef - exact minimiser| <= 1e-4 on |dx|<=1 (LRA)")
+            else:
+                bad.append((name, k))
+        if bad:
+            # candidate: reproduce natively before reporting
+            w = None
+            for s_ in range(6):
+                inp = sampler(100 + s_)
+                out = h.native(fn, inp, N * (K + 1))
+                dxv = inp[N:]
+                sc = max(abs(v) for v in dxv) or 1.0
+                for name, k in bad:
+                    refv = sum(float(X[k][j]) * dxv[j] for j in range(N))
+                    if abs(out[k] - refv) > float(OPT_TOL) * sc:
+                        w = (name, k, inp, out, abs(out[k] - refv) / sc)
+                        break
+                if w:
+                    break
+            for name, k in bad:
+                res.add_raw(name, "violated" if w else "undecided", "z3 could not bound the distance to the exact minimiser" + (" ; reproduced natively" if w else " ; not reproduced natively"))
+            if w:
+                name, k, inp, out, e = w
+                res.violations.append({"key": "%s/minimiser" % key, "what": "%s: coefficient %d is %.3g |dx| away from the exact minimiser of the documented cost (tolerance 1e-4) at input %r" % (fn, k, e, inp),
+                                       "replay": {"property": PID, "key": "%s/minimiser" % key, "tu_name": h.name, "tu_text": h.text, "fn": fn, "inputs": inp, "nout": N * (K + 1),
+                                                  "native": out, "err": e, "tol": float(OPT_TOL), "obligation": "distance to exact minimiser", "lhs": "native", "rhs": "exact rational minimiser"}})
+    res.axioms.add("MinDerivative optimality oracle: exact rational KKT solution of the documented cost and constraints (sympy), independent of the implementation's assembly")
+
+
 def main(tier):
     run = check.Run(PID, tier)
     check.JOB_BUDGET[0] = 400 if tier == "quick" else 3000
     cf = cfgs(tier)
-    check.run_jobs([(_compile, (cf, tier))])
-    run.extend(check.run_jobs([(job, (c, cf, tier)) for c in cf], timeout=1500 if tier == "quick" else 7200))
-    run.bounds += ["(spec, segments): %s ; dt_i in [1e-2, 1e2] symbolic (any ratio), dx_i symbolic" % [(SPECS[s][0], n) for s, n in cf]]
+    cfT = tu_cfgs(tier)
+    check.run_jobs([(_compile, (cfT, tier))])
+    jobs = []
+    for c in cf:
+        if c[0] == 3:
+            jobs += [(job, (c, cfT, tier, dtv)) for dtv in DT_FIXED[c[1]]]
+            if tier == "quick":
+                jobs.append((job, ((3, 2), cfT, tier, DT_FIXED[2][1])))   # one two-segment MinDerivative with ratio 4 (the only quick case with a free degree of freedom)
+        else:
+            jobs.append((job, (c, cfT, tier)))
+    run.extend(check.run_jobs(jobs, timeout=1500 if tier == "quick" else 7200))
+    run.bounds += ["(spec, segments): %s ; dt_i in [1e-2, 1e2] symbolic (any ratio), dx_i symbolic" % [(SPECS[s][0], n) for s, n in cf if s != 3],
+                   "MinDerivative<5,3,3>: dt fixed to %s (N=1)%s, dx_i symbolic" % ([tuple(str(x) for x in v) for v in DT_FIXED[1]], (" and %s (N=2)" % [tuple(str(x) for x in v) for v in (DT_FIXED[2] if tier == "thorough" else DT_FIXED[2][1:2])])),
+                   "MinDerivative N=2: coefficients within 1e-4 |dx|_inf of the exact rational minimiser of the documented cost"]
     run.assumptions += ["layer R: exact arithmetic -- the floating-point conditioning of the sparse factorisations (where the MinDerivative defect named in the property lives) is outside",
                         "fit_spline on groups, fit_bspline, dubins_curve, reparameterize_spline: not encoded (DESIGN 13.6)"]
     return run.finish()
